@@ -39,6 +39,18 @@ CHECKS = {
             "All 5460 function lists (length 1..6 over 4 non-commuting functions) through Compose/Pipe with folds, reversal and every regrouping; adapters with recording functions; Trampoline scripts; CurryDef sequentially and with 2..8 concurrent callers (chain-of-chunks oracle; repeated under -race); all 326 pattern lists x 3 parameterisations x ~40 probe values through MatchFor/Either against the harness' own acceptance model; NewCompData against the declared type.",
             "Trusted: the acceptance model with the pins listed in DESIGN.md C20; the race detector sees only executed access pairs.",
             "DESIGN.md section 5, C20"),
+    "C11": ("exploration", "pure-interpreter reference model over enumerated MonadIO programs; effect log + goroutine identity monitor",
+            "All Just/New + FlatMap chains of depth <= 3 (thorough 5) over 5 continuation kinds plus PRNG chains up to length 30: laziness at construction and at ObserveOn/SubscribeOn, Eval x3 and Subscribe x2 under all four handler combinations (exact effect sequence, exactly one OnNext, effect on the observe handler's goroutine, OnNext on the subscribe handler's), nil OnNext runs nothing, the three monad laws by (value, effect log).",
+            "Trusted: the pure interpreter of the program trees; goroutine ids parsed from runtime.Stack.",
+            "DESIGN.md section 5, C11"),
+    "C17": ("fault_enumeration", "stub RoundTripper capture + expected-request oracle over the constructor x template x params x body x header x injected-fault product",
+            "Every constructor x template x PathParam map x injected outcome (serializer error, transport error, non-JSON body, unreadable body, deserializer (target,err) and (nil,err)) with bodies and header sets rotated (thorough: full product): no request before Eval, exactly one per Eval, method/URL/headers/body as defined, DefaultHeader neither shared nor changed, target decoded, every failure as Err without panic; a subset through the real transport against a loopback server.",
+            "Trusted: the stub transport and the expected-request computation (URL rule in DESIGN.md C17); net/http itself.",
+            "DESIGN.md section 5, C17"),
+    "C18": ("fault_enumeration", "shared call-log monitor (stub interceptors + stub transports) against the model registration list over bounded-exhaustive histories, in child processes",
+            "Every history of length <= 4 (thorough 5) over a 15-letter alphabet of Add/Remove/Clear/SetHTTPClient/request operations, each followed by three probe requests (one with a failing interceptor), plus PRNG histories of length 12 with 0..6 interceptors and failing interceptors at every position: per request each registered interceptor exactly once in order, then exactly one transport call, header changes visible to the transport, abort + surfaced error on failure; a recursing chain kills the child and is attributed.",
+            "Trusted: the stub interceptors/transports and the list model; http.DefaultTransport is replaced by a stub during the run.",
+            "DESIGN.md section 5, C18"),
 }
 
 NOT_YET = "check not built yet in this session (runtime monitoring applies; see DESIGN.md section 5)"
